@@ -99,6 +99,64 @@ theorem second_call_same_result {α : Type} (sem : Sem α) (p : Program) (h : Sa
   intro i
   rw [hind.2.2 i]; exact hkeep i
 
+/-- **Editing a returned object does not change a later answer.**  After a `Safe` call, let the caller do
+anything to the private buffers the call produced (the returned array included): as long as the caller's own
+buffers hold what they held, the next call gives the same kernel calls and the same contents in every local. -/
+theorem second_call_after_editing_results {α : Type} (sem : Sem α) (p : Program) (h : Safe p)
+    (kinds : Nat → Kind) (m0 medit : Mem α) (n : Nat)
+    (hkeep : ∀ i, medit (.caller i) = (mrun sem p kinds m0 0).mem (.caller i)) :
+    let r1 := mrun sem p kinds m0 0
+    let r2 := mrun sem p kinds medit (0 + n)
+    r2.st.events = r1.st.events ∧ (∀ x, r2.mem (r2.st.env x).buf = r1.mem (r1.st.env x).buf) ∧
+      ∀ i, r2.mem (.caller i) = m0 (.caller i) := by
+  intro r1 r2
+  have hk1 : ∀ i, r1.mem (.caller i) = m0 (.caller i) := fun i =>
+    caller_contents_unchanged sem [] p h kinds m0 0 i (by simp)
+  have hind := runs_independent sem p kinds m0 medit 0 n (fun i => by rw [hkeep i]; exact hk1 i)
+  refine ⟨hind.1, hind.2.1, ?_⟩
+  intro i
+  rw [hind.2.2 i]; exact hk1 i
+
+/-- **Repeatable, any number of times.**  Every one of `k+1` consecutive calls of a `Safe` wrapper with the same
+arguments — each started from the memory and allocator state left by the previous one — performs the same kernel
+calls, leaves the same contents in every local as the first call did, and the caller's buffers keep their
+original contents throughout. -/
+theorem every_call_same_result {α : Type} (sem : Sem α) (p : Program) (h : Safe p) (kinds : Nat → Kind)
+    (m0 : Mem α) (k : Nat) :
+    let r1 := nthCall sem p kinds m0 0
+    let rk := nthCall sem p kinds m0 k
+    rk.st.events = r1.st.events ∧ (∀ x, rk.mem (rk.st.env x).buf = r1.mem (r1.st.env x).buf) ∧
+      ∀ i, rk.mem (.caller i) = m0 (.caller i) := by
+  induction k with
+  | zero =>
+    refine ⟨rfl, fun _ => rfl, ?_⟩
+    intro i
+    exact caller_contents_unchanged sem [] p h kinds m0 0 i (by simp)
+  | succ k ih =>
+    intro r1 rk
+    have hprev : ∀ i, (nthCall sem p kinds m0 k).mem (.caller i) = m0 (.caller i) := ih.2.2
+    have hind := runs_independent sem p kinds m0 (nthCall sem p kinds m0 k).mem 0
+      (nthCall sem p kinds m0 k).st.next hprev
+    have hk1 : ∀ i, r1.mem (.caller i) = m0 (.caller i) := fun i =>
+      caller_contents_unchanged sem [] p h kinds m0 0 i (by simp)
+    refine ⟨hind.1, hind.2.1, ?_⟩
+    intro i
+    have := hind.2.2 i
+    show (nthCall sem p kinds m0 (k + 1)).mem (.caller i) = m0 (.caller i)
+    rw [show nthCall sem p kinds m0 (k + 1) = mrun sem p kinds (nthCall sem p kinds m0 k).mem
+          (0 + (nthCall sem p kinds m0 k).st.next) from rfl, this]
+    exact hk1 i
+
+/-- the marking semantics the driver runs (`mark` request) agrees with the written set: under `Safe`, no caller
+buffer is marked, for any kinds -/
+theorem safe_marks_nothing (p : Program) (h : Safe p) (kinds : Nat → Kind) (n : Nat) :
+    markedCallers p kinds n = [] := by
+  unfold markedCallers
+  simp only [List.filter_eq_nil_iff, List.mem_range]
+  intro i _
+  have := caller_contents_unchanged markSem [] p h kinds (fun _ => 0) 0 i (by simp)
+  simp [this]
+
 /-! ### the wrappers of hydrodiy (one obligation per kernel call site; decided: the check is syntactic) -/
 
 theorem aggregate_safe : Safe aggregate := by decide
@@ -195,6 +253,15 @@ example :
     (mrun sem andersonDarling (fun _ => ⟨true, .f64, true⟩) (fun _ => 7)).mem (.caller 0) = 7 ∧
     (mrun sem andersonDarlingAsarray (fun _ => ⟨true, .f64, true⟩) (fun _ => 7)).mem (.caller 0) = 107 := by
   decide
+
+/-- four consecutive calls: the caller's buffer keeps its contents under the real wrapper, and is stored to on
+every call (7 → 11) under the `np.asarray` edit -/
+example :
+    (nthCall markSem andersonDarling (fun _ => ⟨true, .f64, true⟩) (fun _ => 7) 3).mem (.caller 0) = 7 ∧
+    (nthCall markSem andersonDarlingAsarray (fun _ => ⟨true, .f64, true⟩) (fun _ => 7) 3).mem (.caller 0) = 11 := by
+  decide
+example : markedCallers andersonDarlingAsarray (fun _ => ⟨true, .f64, true⟩) 10 = [0] ∧
+    markedCallers delineateBoundary (fun _ => ⟨true, .i64, true⟩) 10 = [1] := by decide
 
 /-- the read-only pass-through is visible in the events: a C-contiguous float64 `xycoords` reaches
 `c_coord2cell` itself, a float32 one is converted -/
